@@ -2,6 +2,7 @@
 mod hub;
 mod seq;
 mod srv;
+mod sub;
 mod store;
 mod util;
 
@@ -31,6 +32,7 @@ fn main() {
         "trans" => seq::engine_trans(cases, &mut out),
         "cachediff" => seq::engine_cachediff(cases, &mut out),
         "overtake" => seq::engine_overtake(&rt, cases, &mut out),
+        "sub" => sub::engine_sub(&rt, cases, &mut out),
         other => {
             eprintln!("unknown engine {other}");
             std::process::exit(2);
